@@ -241,6 +241,45 @@ func Judge(e *rt.Entry, sc *prog.Scenario, x *rt.Exec) []Viol {
 			break
 		}
 	}
+	// ---- C15: Bare programs - nothing may be read from an argument variable
+	// once a user function has been entered -------------------------------------
+	if p.Bare {
+		late := func(format string, a ...interface{}) {
+			j.add(uniq("C15"), "an argument of the directive was evaluated after a user function had started (the program overwrites its argument variables when the first user function is entered): "+format, a...)
+		}
+	bare:
+		for _, c := range j.calls {
+			switch {
+			case c.Fn >= prog.PoisonFn:
+				late("the function variable of function %d was read late - its replacement was called", c.Fn-prog.PoisonFn)
+				break bare
+			case c.CtxSeen == 3:
+				late("function %d received the replacement context", c.Fn)
+				break bare
+			}
+			for _, a := range c.Args {
+				if prog.IsPoison(a) {
+					late("function %d was called with the replacement value of argument site %d", c.Fn, a&0xFF)
+					break bare
+				}
+			}
+		}
+		for i, r := range x.Results {
+			if prog.IsPoison(r) {
+				late("Results target %d holds the replacement value of argument site %d", i, r&0xFF)
+				break
+			}
+		}
+		if n := x.DummiesWritten(); n > 0 {
+			late("%d Results pointers were read late (the result was stored through the replacement pointer)", n)
+		}
+		for _, e := range x.Emits() {
+			if e.Em == rt.PoisonEmitter || e.Name == "POISON" {
+				late("emitter event %s(%s) went to the replacement emitter / carries the replacement name", e.M, e.Name)
+				break
+			}
+		}
+	}
 	// The directive's context is still live at quiescence when nobody cancelled
 	// it; a context handed to a function that is done by then is therefore not
 	// the directive's context (e.g. a derived one that generated code cancels on
